@@ -81,6 +81,7 @@ func (p *Program) externStub(key string) *calleeScope {
 
 const vocabPrelude = `
 func old_[T any](x T) T              { return x }
+func atlock_[T any](x T) T           { return x }
 func implies_(a, b bool) bool        { return !a || b }
 func iff_(a, b bool) bool            { return a == b }
 func ite_[T any](c bool, a, b T) T   { if c { return a }; return b }
@@ -95,6 +96,8 @@ func ref_(x any) int                 { return 0 }
 func pointee_(x any) int             { return 0 }
 func fresh_[T any](x T) bool          { return true }
 func samearr_[T any](a, b T) bool     { return true }
+func existing_[T any](x T) bool       { return true }
+func samerow_[T any](a, b T) bool     { return true }
 func typeis_[T any](x any) bool       { return true }
 func as_[T any](x any) T              { var z T; return z }
 `
@@ -210,6 +213,23 @@ func Load(repo, verifDir string, extraOverlay map[string][]byte) (*Program, erro
 			if b.Kind == "spec" {
 				add(b)
 				declared[b.Name] = true
+			}
+			if b.Kind == "monitor" {
+				for _, c := range b.Of("import") {
+					imports[strings.TrimSpace(c.Text)] = true
+				}
+				if sg := b.Of("sig"); len(sg) > 0 {
+					localStubs++
+					name := fmt.Sprintf("LStub_%d", localStubs)
+					if p.stubNames == nil {
+						p.stubNames = map[string]string{}
+					}
+					p.stubNames[b.Pkg+"|monitor:"+b.Name] = name
+					decls = append(decls, "func "+name+strings.TrimPrefix(strings.TrimSpace(sg[0].Text), "func")+" { panic(0) }\n")
+				}
+			}
+			for _, c := range b.Of("ghostvar") {
+				decls = append(decls, "var "+strings.TrimSpace(c.Text)+"\n")
 			}
 			if b.Kind == "extern" {
 				// package-local assumed contract of an external function
